@@ -69,6 +69,7 @@ def json_namespace(repo, ci):
 def run(ctx):
     repo = ctx.repo
     _no_hash_keyed_tables(ctx, repo)
+    _reader_builds_with_cls(ctx, repo)
     _bytes_identity_rule(ctx, repo)
     _key_string_rule(ctx, repo)
     shared.module_state_rule(ctx, 'C11.j', ['cirq-core/cirq/protocols/', 'cirq-core/cirq/value/', 'cirq-core/cirq/study/', 'cirq-core/cirq/_compat.py'], floor=3)
@@ -702,3 +703,33 @@ def _no_hash_keyed_tables(ctx, repo):
                        f'`{ast.unparse(x)[:70]}` looks the object up by its hash: a different object with the same hash is taken for it', m.rel, x.lineno)
     if n == 0:
         raise AnalysisError('C11.m: no sharing table found in the writers')
+
+
+def _reader_builds_with_cls(ctx, repo):
+    """C11.n - a reader rebuilds the object with its own constructor, not through a helper of one of the parts."""
+    ctx.decided.append('C11.n every _from_json_dict_ returns an object built by cls(...) / the class itself (or a tabled singleton / a local built that way): a value obtained by calling a '
+                       'method of one of the decoded parts (sub_operation.with_tags(...)) may be normalised - flattened, unwrapped, of another type')
+    ctx.rule('C11.n', 'readers construct: in every _from_json_dict_ no return value is a method call on one of the method\'s own parameters (the decoded parts); the object is built by '
+             'cls(...), the class name, a classmethod of cls, or is a local / singleton', floor=60, style='WR')
+    for ci in sorted(repo.classes.values(), key=lambda c: c.qual):
+        if '.testing.' in ci.qual:
+            continue
+        fn = ci.methods.get('_from_json_dict_')
+        if fn is None:
+            continue
+        params = {a.arg for a in fn.args.args[1:] + fn.args.kwonlyargs}
+        inner = {id(x) for f in ast.walk(fn) if f is not fn and isinstance(f, (ast.FunctionDef, ast.Lambda)) for x in ast.walk(f)}
+        bad = None
+        for r in ast.walk(fn):
+            if id(r) in inner or not (isinstance(r, ast.Return) and r.value is not None):
+                continue
+            v = r.value
+            if isinstance(v, ast.Call) and isinstance(v.func, ast.Attribute):
+                base = v.func.value
+                while isinstance(base, (ast.Attribute, ast.Subscript, ast.Call)):
+                    base = base.func if isinstance(base, ast.Call) else base.value
+                if isinstance(base, ast.Name) and base.id in params:
+                    bad = v
+        ctx.ob('C11.n', f'{ci.qual}._from_json_dict_:constructs', bad is None, '' if bad is None else
+               f'`return {ast.unparse(bad)[:70]}` hands back what a method of the decoded part `{ast.unparse(bad.func.value)[:30]}` returns instead of constructing {ci.name}: nested or empty '
+               'wrappers are flattened / unwrapped, so the value read differs from the value written', ci.mod.rel, bad.lineno if bad is not None else fn.lineno)
